@@ -511,6 +511,7 @@ func (c20) Run(t *testing.T, tape *core.Tape, rcx *RunCtx) *core.Result {
 	var gotX []error
 	closedE, closedX := false, false
 	stallCount := 0
+	var stallTime time.Duration
 	recvAfterEnd := 0
 	started := true
 	var readErr error
@@ -542,7 +543,7 @@ func (c20) Run(t *testing.T, tape *core.Tape, rcx *RunCtx) *core.Result {
 					consumed += len(payloadB)
 				}
 			}
-			if allowed := 20000 + 60*consumed + 50*int(reads) + 200*(len(gotE)+len(gotX)+len(gotEB)+len(gotXB)); sim.Steps > allowed {
+			if allowed := 20000 + 60*consumed + 50*int(reads) + 200*(len(gotE)+len(gotX)+len(gotEB)+len(gotXB)) + int(stallTime.Seconds()*10000) + 100*stallCount; sim.Steps > allowed {
 				return fmt.Sprintf("%d scheduler steps used, %d allowed for %d bytes handed over in %d reads and %d values delivered", sim.Steps, allowed, consumed, reads, len(gotE)+len(gotX))
 			}
 			if rd != nil && rd.Finished && recvAfterEnd > recvBound {
@@ -598,7 +599,9 @@ func (c20) Run(t *testing.T, tape *core.Tape, rcx *RunCtx) *core.Result {
 					return
 				}
 				if stalls && tape.Draw(5) == 4 {
-					time.Sleep([]time.Duration{time.Millisecond, 300 * time.Millisecond, 2 * time.Second, time.Minute, time.Hour}[tape.Draw(5)])
+					d := []time.Duration{time.Millisecond, 50 * time.Millisecond, 300 * time.Millisecond, 2 * time.Second, 5 * time.Second}[tape.Draw(5)]
+					time.Sleep(d)
+					stallTime += d
 					stallCount++
 				}
 				e, ok := <-ce
@@ -619,7 +622,9 @@ func (c20) Run(t *testing.T, tape *core.Tape, rcx *RunCtx) *core.Result {
 					return
 				}
 				if stalls && tape.Draw(5) == 4 {
-					time.Sleep([]time.Duration{time.Millisecond, 300 * time.Millisecond, 2 * time.Second, time.Minute, time.Hour}[tape.Draw(5)])
+					d := []time.Duration{time.Millisecond, 50 * time.Millisecond, 300 * time.Millisecond, 2 * time.Second, 5 * time.Second}[tape.Draw(5)]
+					time.Sleep(d)
+					stallTime += d
 					stallCount++
 				}
 				e, ok := <-cx
